@@ -35,7 +35,10 @@ SPECS.update({
         parts=[dict(name="hist", binary="rigv", pkg="rigv", test="TestC06", shards={"quick": 16, "thorough": 16}),
                dict(name="svc", binary="rigv", pkg="rigv", test="TestC06svc", race=True, shards={"quick": 8, "thorough": 16})]),
     "C13": hist("TestC13", _H % ("seek", "a seek acknowledged or revived at least one delivery")),
-    "C14": hist("TestC14", _H % ("retention", "a subscription expired, a retention deadline passed with a message outstanding, or a delivery delay was observed")),
+    "C14": dict(level="exploration", assumptions=HIST_ASSUME, min_relevant={"quick": 50, "thorough": 500},
+        rule=(_H % ("retention", "a subscription expired, a retention deadline passed with a message outstanding, or a delivery delay was observed")) + "; plus a service part: the real, long-lived subscription-expiry service (one action object for the life of the process, own ticker, virtual time, -race) is started first, then 2-5 subscriptions with TTLs of 1-10 minutes are created and left idle, kept busy with empty pulls, or kept busy and then abandoned; every 7 virtual seconds each must be alive while its deadline (last activity + TTL) is more than a second ahead and gone once the deadline plus (k+2) x (interval + fuzz) + 5 s has passed, and an expired one must answer NotFound to Pull",
+        parts=[dict(name="hist", binary="rigv", pkg="rigv", test="TestC14", shards={"quick": 16, "thorough": 16}),
+               dict(name="svc", binary="rigv", pkg="rigv", test="TestC14svc", race=True, shards={"quick": 8, "thorough": 16})]),
 })
 
 PURE_ASSUME = [
